@@ -532,9 +532,16 @@ def run(ctx):
     ctx.cross_check_vm(521, largs, lm, n=30)
     ctx.count(len(lc))
     ctx.exhaustive = False
+    # column-name variables of rbql-js bind the same after earlier (also failing) queries in one process as in a fresh one (seeded change
+    # C09-12: a scanner state left behind by an aborted scan mis-bound the variables of the NEXT query)
+    import importlib
+    importlib.import_module('props.c16js').run(ctx, THEOREM + ' ; rbql-js: bindings after earlier queries = bindings in a fresh interpreter')
 
 
 def replay(ctx, case):
+    if case.get('part') == 'c16js':
+        import importlib
+        return importlib.import_module('props.c16js').replay(ctx, case, THEOREM)
     kind = case.get('kind')
     if kind == 'internal':
         _a, _v, e = internal_expect([case])
